@@ -17,7 +17,7 @@ import (
 func init() {
 	register("C19",
 		"DECIDED: D1 kind tables close — for each mapping type T: T.Encode emits its own flag followed by (gamma, indexOffset) as float64LE in that order, the arm of mapping.Decode selected by that flag passes the two decoded values in the same order to a constructor whose result type is T; T.ToProto and T.EncodeProto emit the same Interpolation enum and the same (gamma, indexOffset) fields, and the arm of mapping.FromProto selected by that enum constructs T from (m.Gamma, m.IndexOffset); unknown kinds return an error. "+
-			"D2 constructors store what is serialised — the gamma / offset fields are the constructor's parameters (write-once: C14-D2 immutability) and the accuracy constructors return the result of the gamma constructors. "+
+			"D1 also: FromProto turns a message down only because it is nil, because its kind is unknown, or because the kind's constructor refuses the parameters — no range check of its own. D2 constructors store what is serialised — the gamma / offset fields are the constructor's parameters (write-once: C14-D2 immutability) and the accuracy constructors return the result of the gamma constructors. "+
 			"D3 Equals — comma-ok assertion to the receiver's own type (different kinds are never equal), false on mismatch, otherwise the conjunction of the tolerance test on both parameter pairs with one tolerance; the tolerance helper is symmetric in its two values and implements the documented decision table (either value zero ⇒ both magnitudes within the tolerance; otherwise |x−y| ≤ tol·max(|x|,|y|)) — both by exhaustive truth-table comparison over its condition atoms. "+
 			"SHARED (re-evaluated here under their home rule ids): C13-D3 sketch merge and the MergeWith row of C10-D1 (Equals gates merging on every path before any write; the exact variant has no way around the inner merge). C06-D4 omit flag, C06-D5 optional blocks and C06-D6 decoding constructors (the binary form of any sketch carries its mapping block unless omitted; the constructors hand the caller's mapping on). C08-D3 mapping part (a mapping block met while decoding into a sketch is decoded with its own flag, compared through Equals with the mapping the receiver has at that moment, adopted only when there was none or Equals holds, refused exactly on Equals false). C09-D1 for IndexMappingBuilder and for DDSketchBuilder.SetMapping (the mapping sub-message is collected in the one sub-buffer that was reset, announced with that buffer's length and written from it) — each streaming setter of the mapping message writes the tag of its own field, appended to a scratch truncated to length 0, with the value encoding of that field's type (a reused builder must not re-emit the previous field in front of gamma or offset). "+
 			"NOT DECIDED: the numeric part of 'clearly different accuracies are never equal'; equality of Index/Value/LowerBound after restoration beyond what D1–D2 and exact float64 transport imply.",
